@@ -61,8 +61,8 @@ def methods():
     return ms
 
 
-def make_case(texts, mode='history', n=None, threads=None, keying='fixed', validator=None):
-    c = {'suite': NAME, 'cfg': D.cfg(methods=methods()), 'texts': texts, 'loads': [S.load_result(t) for t in texts], 'mode': mode,
+def make_case(texts, mode='history', n=None, threads=None, keying='fixed', validator=None, handlers=None):
+    c = {'suite': NAME, 'cfg': D.cfg(methods=methods(), handlers=handlers), 'texts': texts, 'loads': [S.load_result(t) for t in texts], 'mode': mode,
          'keying': keying}
     if validator:
         c['validator'] = validator
@@ -85,10 +85,17 @@ def generate(tier, rng):
     n_hist = 30000 if thorough else 1500
     for i in range(n_hist):
         length = rng.randrange(1, 12 if thorough else 7)
-        yield make_case([rng.choice(TEXTS) for _ in range(length)] + [rng.choice(TEXTS)], validator=VALIDATORS[i % 3] if i % 2 else None)
+        yield make_case([rng.choice(TEXTS) for _ in range(length)] + [rng.choice(TEXTS)], validator=VALIDATORS[i % 3] if i % 2 else None,
+                        handlers=D.HANDLER_TABLES[3 + (i // 4) % 2] if i % 4 == 0 else None)
+    # failing requests of every class, in every order, on a dispatcher with generic and per-code error handlers
+    failing = [TEXTS[4], TEXTS[2], TEXTS[8], TEXTS[9], TEXTS[13], TEXTS[0]]
+    for a in failing:
+        for b in failing:
+            for table in D.HANDLER_TABLES[3:5]:
+                yield make_case([a, a, b], handlers=table)
     # (b) N dispatches with a fresh context object each: nothing retained, the caches do not grow with N
     for n in (1, 10, 1000):
-        for text in (TEXTS[0], TEXTS[5], TEXTS[10], TEXTS[12], TEXTS[14], TEXTS[17], TEXTS[19], TEXTS[21]):
+        for text in (TEXTS[0], TEXTS[5], TEXTS[10], TEXTS[12], TEXTS[14], TEXTS[17], TEXTS[19], TEXTS[21], TEXTS[9], TEXTS[8], TEXTS[4]):
             for v in VALIDATORS:
                 if n == 1000 and v and not thorough and text not in (TEXTS[10], TEXTS[5]):
                     continue
@@ -117,7 +124,13 @@ def shared_validator(kind):
 def fresh_dispatcher(cfg, is_async, validator=None):
     """a dispatcher over *new* function / view-class objects, so the growth of the process-wide caches
     during this case is attributable to this case"""
-    d = (pjrpc.server.AsyncDispatcher if is_async else pjrpc.server.Dispatcher)()
+    kwargs = {}
+    if cfg.get('handlers'):
+        kwargs['error_handlers'] = {
+            (None if e['key'] is None else int(e['key'])): [S.make_handler(None if e['key'] is None else int(e['key']), i, h, is_async)
+                                                              for i, h in enumerate(e['hs'])]
+            for e in cfg['handlers']}
+    d = (pjrpc.server.AsyncDispatcher if is_async else pjrpc.server.Dispatcher)(**kwargs)
     for m in cfg['methods']:
         key = m.get('key') or m['name']
         if m.get('view'):
@@ -176,18 +189,18 @@ def run_half(c, is_async):
     if c['mode'] == 'history':
         # the probe alone on a fresh dispatcher, *before* the history has run
         d0 = fresh_dispatcher(c['cfg'], is_async, vk)
-        o0 = dispatch_on(d0, c['texts'][-1], is_async, S.CTX)
+        o0 = dispatch_on(d0, c['texts'][-1], is_async, S.next_ctx())
         out['probe_before'] = {'result': o0['result'], 'events': o0['events']}
         del d0
     before = cache_size()
     d = fresh_dispatcher(c['cfg'], is_async, vk)
     if c['mode'] == 'history':
-        outs = [dispatch_on(d, t, is_async, S.CTX) for t in c['texts']]
+        outs = [dispatch_on(d, t, is_async, S.next_ctx()) for t in c['texts']]
         out['outs'] = [{'result': o['result'], 'events': o['events']} for o in outs]
         out['cache_growth'] = cache_size() - before
         # the probe alone on a fresh dispatcher
         d2 = fresh_dispatcher(c['cfg'], is_async, vk)
-        o2 = dispatch_on(d2, c['texts'][-1], is_async, S.CTX)
+        o2 = dispatch_on(d2, c['texts'][-1], is_async, S.next_ctx())
         out['probe_fresh'] = {'result': o2['result'], 'events': o2['events']}
     elif c['mode'] == 'repeat':
         refs = []
@@ -208,6 +221,7 @@ def run_half(c, is_async):
         if is_async:
             return {'skipped': True}
         texts = c['texts']
+        S.CURRENT['ctx'] = S.CTX          # one context object for the serial and the threaded run (no per-call marker race)
         serial = [dispatch_on(d, t, False, S.CTX)['result'] for t in texts]
 
         def work(t):
